@@ -305,8 +305,8 @@ Section Follow.
       rewrite (ok_item_mac2 cx ps ex ws name post args G sp l GS SA) in H.
       rewrite (ok_item_mac2 cx ps ex ws name post args (G ++ X) sp l GS SA).
       apply andb_true_iff in H. destruct H as [H1 H2]. rewrite H1. cbn [andb].
-      apply andb_true_iff in H2. destruct H2 as [H2 FO]. apply andb_true_iff in H2. destruct H2 as [OKA SL].
-      rewrite SL, andb_true_r. apply andb_true_iff. split.
+      apply andb_true_iff in H2. destruct H2 as [OKA FO].
+      apply andb_true_iff. split.
       + apply HAs; [lia | exact NE | exact OKA].
       + rewrite app_assoc, mac_follow_ok2_ext; [exact FO | apply app_ne; exact NE].
     - (* math *)
@@ -331,8 +331,8 @@ Section Follow.
       rewrite (ok_item_env2 cx ps ex ws bws name args b tr ews G sp l GS SA) in H.
       rewrite (ok_item_env2 cx ps ex ws bws name args b tr ews (G ++ X) sp l GS SA).
       apply andb_true_iff in H. destruct H as [H1 H2]. rewrite H1. cbn [andb].
-      apply andb_true_iff in H2. destruct H2 as [H2 OKB]. apply andb_true_iff in H2. destruct H2 as [OKA SL].
-      rewrite SL, andb_true_r. apply andb_true_iff. split.
+      apply andb_true_iff in H2. destruct H2 as [OKA OKB].
+      apply andb_true_iff. split.
       + replace (unparse_items2 b ++ tr ++ end_str ews name ++ G ++ X)
           with ((unparse_items2 b ++ tr ++ end_str ews name ++ G) ++ X) by (repeat (first [rewrite <- app_assoc | rewrite <- app_comm_cons]); reflexivity).
         apply HAs; [lia | apply app_ne, app_ne, app_ne; exact NE | exact OKA].
@@ -351,8 +351,7 @@ Section Follow.
       replace (chars ++ unparse_items2 args ++ G ++ X) with ((chars ++ unparse_items2 args ++ G) ++ X)
         by (repeat (first [rewrite <- app_assoc | rewrite <- app_comm_cons]); reflexivity).
       rewrite specials_match_ext, H1. cbn [andb].
-      apply andb_true_iff in H2. destruct H2 as [OKA SL]. rewrite SL, andb_true_r.
-      apply HAs; [lia | exact NE | exact OKA].
+      apply HAs; [lia | exact NE | exact H2].
     - (* the verbatim macro: the follow string is not consulted *) exact H.
     - (* a verbatim environment *)
       cbn [isize2] in SZ. fold (lsize2 oarg) in SZ.
